@@ -163,6 +163,8 @@ GetLoop(s, pick, nst) ==
               s3 == IF Aperture /\ s1.chan[n] # IDLE THEN Expand(s2, pick, nst) ELSE s2
           IN IF s3.over THEN s3 ELSE GetLoop(s3, pick, nst)
 
+PickOK(pick) == IF idle = {} THEN pick = MinOf(IF Aperture THEN Eps ELSE {0}) ELSE pick \in idle
+
 Work0 == [heap |-> heap, load |-> load, downq |-> downq, ns |-> ns, chan |-> chan, epn |-> epn,
           idle |-> idle, evs |-> <<>>, over |-> FALSE]
 
@@ -189,7 +191,8 @@ Emit(evs) ==
 \* ------------------------------------------------------------------ actions
 Dispatch(pick, nst) ==
   IF Size = 0
-  THEN /\ Emit(<<[e |-> "Disp", r |-> 0, n |-> -1, err |-> "nomembers", st |-> 0, fresh |-> 0,
+  THEN /\ PickOK(pick) /\ nst = OPEN
+       /\ Emit(<<[e |-> "Disp", r |-> 0, n |-> -1, err |-> "nomembers", st |-> 0, fresh |-> 0,
                   hasU |-> 1, U |-> <<>>]>> \o StepEnd(load, ns, neg, heap, epn))
        /\ UNCHANGED ivars
   ELSE LET g == GetLoop(Work0, pick, nst)
@@ -197,7 +200,8 @@ Dispatch(pick, nst) ==
            ld == [g.load EXCEPT ![n] = @ + 1]
            \* Heap.FixDown(self._heap, n.index, self._size); StaleSize: the bound was read before __Get
            hp == FixDown(g.heap, ld, 1, IF StaleSize THEN Size ELSE Len(g.heap))
-       IN /\ ~g.over
+       IN /\ PickOK(pick)
+          /\ ~g.over
           /\ (IF n \in Nodes(abs) THEN abs.node[n].out ELSE 0) < MaxLoad
           /\ heap' = hp
           /\ load' = ld
@@ -278,6 +282,7 @@ RemoveSink(e, pick, nst) ==
   /\ Membership /\ e \in Members
   /\ IF e \in idle
      THEN \* ApertureBalancerSink._RemoveSink of an endpoint held idle: no node, just forgotten
+          /\ pick = e /\ nst = OPEN
           /\ idle' = idle \ {e}
           /\ Emit(<<[e |-> "Leave", ep |-> e], [e |-> "LeaveDone", ep |-> e]>>
                   \o StepEndI(load, ns, neg, heap, epn, idle \ {e}))
@@ -289,7 +294,8 @@ RemoveSink(e, pick, nst) ==
                                  !.chan[n] = CLOSED]     \* never read again for a discarded node
               \* ApertureBalancerSink._RemoveSink: the departed member is replaced from the idle set
               g == IF Aperture THEN Expand(w, pick, nst) ELSE w
-          IN /\ ~g.over
+          IN /\ PickOK(pick)
+             /\ ~g.over
              /\ heap' = g.heap
              /\ load' = g.load
              /\ ns' = g.ns
@@ -325,11 +331,13 @@ Init ==
   /\ epn = [n \in NodeIds |-> IF n <= InHeap0 THEN n ELSE 0]
   /\ late = [n \in NodeIds |-> 0]
   /\ neg = 0
-  /\ idle = (InHeap0 + 1)..InitN
+  /\ idle = {e \in 1..InitN : e > InHeap0}
   /\ abs = [AInit0(IF Aperture THEN "aperture" ELSE "heap", 1..InitN)
               EXCEPT !.loaded = TRUE, !.node = [n \in 1..InHeap0 |-> NewNode(n)]]
   /\ viol = "ok"
 
+\* random.choice of the first expansion of a step (later ones in the same step take the least idle
+\* endpoint); PickOK keeps one representative when there is nothing to choose from
 Picks == IF Aperture THEN Eps ELSE {0}
 NewSts == IF Aperture /\ Faults THEN {OPEN, IDLE} ELSE {OPEN}
 
